@@ -1,7 +1,14 @@
 //! Deterministic PRNG (xoshiro256**) + mixing helpers. No external crates.
 
+/// `tape`: when set, values are read from these bytes first (a coverage-guided fuzzer's input drives the
+/// generators: small choices cost one byte, opaque content is copied verbatim); once the tape is used up
+/// the PRNG (seeded from the tape) continues, so every generator still terminates with a valid value.
 #[derive(Clone)]
-pub struct Rng([u64; 4]);
+pub struct Rng {
+    s: [u64; 4],
+    tape: Option<std::sync::Arc<Vec<u8>>>,
+    pos: usize,
+}
 
 pub fn splitmix(x: &mut u64) -> u64 {
     *x = x.wrapping_add(0x9E37_79B9_7F4A_7C15);
@@ -38,16 +45,38 @@ pub fn hash_bytes(s: &[u8]) -> u64 {
 impl Rng {
     pub fn new(seed: u64) -> Rng {
         let mut s = seed;
-        Rng([
-            splitmix(&mut s),
-            splitmix(&mut s),
-            splitmix(&mut s),
-            splitmix(&mut s),
-        ])
+        Rng { s: [splitmix(&mut s), splitmix(&mut s), splitmix(&mut s), splitmix(&mut s)], tape: None, pos: 0 }
+    }
+    pub fn from_tape(tape: std::sync::Arc<Vec<u8>>) -> Rng {
+        let mut r = Rng::new(hash_bytes(&tape));
+        r.tape = Some(tape);
+        r
+    }
+    /// up to `n` (<= 8) bytes from the tape as a big-endian integer; None when the tape is absent or used up
+    #[inline]
+    fn take(&mut self, n: usize) -> Option<u64> {
+        let t = self.tape.as_ref()?;
+        if self.pos >= t.len() {
+            return None;
+        }
+        let end = (self.pos + n).min(t.len());
+        let mut v = 0u64;
+        for b in &t[self.pos..end] {
+            v = (v << 8) | *b as u64;
+        }
+        self.pos = end;
+        Some(v)
     }
     #[inline]
     pub fn next_u64(&mut self) -> u64 {
-        let s = &mut self.0;
+        if let Some(v) = self.take(8) {
+            return v;
+        }
+        self.prng()
+    }
+    #[inline]
+    fn prng(&mut self) -> u64 {
+        let s = &mut self.s;
         let result = s[1].wrapping_mul(5).rotate_left(7).wrapping_mul(9);
         let t = s[1] << 17;
         s[2] ^= s[0];
@@ -60,21 +89,36 @@ impl Rng {
     }
     #[inline]
     pub fn u8(&mut self) -> u8 {
-        (self.next_u64() >> 56) as u8
+        if let Some(v) = self.take(1) {
+            return v as u8;
+        }
+        (self.prng() >> 56) as u8
     }
     #[inline]
     pub fn u16(&mut self) -> u16 {
-        (self.next_u64() >> 48) as u16
+        if let Some(v) = self.take(2) {
+            return v as u16;
+        }
+        (self.prng() >> 48) as u16
     }
     #[inline]
     pub fn u32(&mut self) -> u32 {
-        (self.next_u64() >> 32) as u32
+        if let Some(v) = self.take(4) {
+            return v as u32;
+        }
+        (self.prng() >> 32) as u32
     }
     /// uniform in [0, n) (n > 0)
     #[inline]
     pub fn below(&mut self, n: u64) -> u64 {
         debug_assert!(n > 0);
-        ((self.next_u64() as u128 * n as u128) >> 64) as u64
+        if self.tape.is_some() {
+            let w = if n <= 256 { 1 } else if n <= 65536 { 2 } else { 8 };
+            if let Some(v) = self.take(w) {
+                return v % n;
+            }
+        }
+        ((self.prng() as u128 * n as u128) >> 64) as u64
     }
     /// uniform in [lo, hi] inclusive
     #[inline]
@@ -90,27 +134,35 @@ impl Rng {
         self.below(den) < num
     }
     pub fn bool(&mut self) -> bool {
-        self.next_u64() & 1 == 1
+        if let Some(v) = self.take(1) {
+            return v & 1 == 1;
+        }
+        self.prng() & 1 == 1
     }
     pub fn pick<'a, T>(&mut self, xs: &'a [T]) -> &'a T {
         &xs[self.below(xs.len() as u64) as usize]
     }
+    /// tape bytes copied verbatim (as many as are left)
+    fn tape_copy(&mut self, out: &mut [u8]) -> usize {
+        match &self.tape {
+            Some(t) if self.pos < t.len() => {
+                let k = out.len().min(t.len() - self.pos);
+                out[..k].copy_from_slice(&t[self.pos..self.pos + k]);
+                self.pos += k;
+                k
+            }
+            _ => 0,
+        }
+    }
     pub fn bytes(&mut self, n: usize) -> Vec<u8> {
-        let mut v = Vec::with_capacity(n);
-        let mut left = n;
-        while left >= 8 {
-            v.extend_from_slice(&self.next_u64().to_le_bytes());
-            left -= 8;
-        }
-        if left > 0 {
-            let x = self.next_u64().to_le_bytes();
-            v.extend_from_slice(&x[..left]);
-        }
+        let mut v = vec![0u8; n];
+        self.fill(&mut v);
         v
     }
     pub fn fill(&mut self, out: &mut [u8]) {
-        for ch in out.chunks_mut(8) {
-            let x = self.next_u64().to_le_bytes();
+        let k = self.tape_copy(out);
+        for ch in out[k..].chunks_mut(8) {
+            let x = self.prng().to_le_bytes();
             ch.copy_from_slice(&x[..ch.len()]);
         }
     }
